@@ -184,6 +184,10 @@ fn textbook_layered<const N: usize, const M: usize>(rows: &[&[usize]], ch: &[i32
 }
 
 fn inputs<const N: usize>() -> ([i32; N], [f64; N], usize) {
+    inputs_l::<N>(2)
+}
+
+fn inputs_l<const N: usize>(max_limit: usize) -> ([i32; N], [f64; N], usize) {
     let mut ch = [0i32; N];
     let mut f = [0.0f64; N];
     for k in 0..N {
@@ -193,7 +197,7 @@ fn inputs<const N: usize>() -> ([i32; N], [f64; N], usize) {
         f[k] = v as f64;
     }
     let limit: usize = kani::any();
-    kani::assume(limit <= 2);
+    kani::assume(limit <= max_limit);
     (ch, f, limit)
 }
 
@@ -237,6 +241,31 @@ fn c03_layered_h1() {
 #[kani::unwind(8)]
 fn c03_layered_h2() {
     let (ch, f, limit) = inputs::<4>();
+    let mut d = horizontal_layered::Decoder::new(h2(), ExactMinSum {});
+    let got = d.decode(&f, limit);
+    let want = textbook_layered::<4, 3>(&H2_ROWS, &ch, limit);
+    assert!(got == want);
+    kani::cover!(matches!(&got, Ok(o) if o.iterations == 0));
+    kani::cover!(matches!(&got, Ok(o) if o.iterations >= 1) || got.is_err());
+}
+
+/// quick-tier variants: iteration limit <= 1
+#[kani::proof]
+#[kani::unwind(8)]
+fn c03_flooding_h1_l1() {
+    let (ch, f, limit) = inputs_l::<3>(1);
+    let mut d = flooding::Decoder::new(h1(), ExactMinSum {});
+    let got = d.decode(&f, limit);
+    let want = textbook_flooding::<3, 2>(&H1_ROWS, &ch, limit);
+    assert!(got == want);
+    kani::cover!(matches!(&got, Ok(o) if o.iterations == 0));
+    kani::cover!(matches!(&got, Ok(o) if o.iterations >= 1) || got.is_err());
+}
+
+#[kani::proof]
+#[kani::unwind(8)]
+fn c03_layered_h2_l1() {
+    let (ch, f, limit) = inputs_l::<4>(1);
     let mut d = horizontal_layered::Decoder::new(h2(), ExactMinSum {});
     let got = d.decode(&f, limit);
     let want = textbook_layered::<4, 3>(&H2_ROWS, &ch, limit);
